@@ -503,6 +503,10 @@ func checkC07(p *Prog, res *Result, tier string) {
 		if o.Rule == "C11-R5" && (strings.HasSuffix(o.Construct, ".Del") || strings.HasSuffix(o.Construct, ".DelCurrent")) {
 			res.add("C07-R6", o.Rule+" "+o.Construct, o.Status, o.Pos, o.Detail)
 		}
+		// .. and so must the adapters: a delete (a commit) that failed in the engine is reported as failed (C11-R11)
+		if o.Rule == "C11-R11" && (strings.Contains(o.Construct, "Commit") || strings.Contains(o.Construct, "Del")) {
+			res.add("C07-R6", o.Rule+" "+o.Construct, o.Status, o.Pos, o.Detail)
+		}
 	}
 	// ---- R7: the compaction scan sees every record (C13-R5) ----
 	sub13 := newResult("C13")
@@ -519,7 +523,8 @@ func checkC07(p *Prog, res *Result, tier string) {
 		checkC17(p, sub17, tier)
 		c17NoImports = saved
 		for _, o := range sub17.Obls {
-			if o.Rule == "C17-R3" {
+			// (and the revision up to which it expires is that of a compaction mark older than the TTL: C17-R2)
+			if o.Rule == "C17-R3" || o.Rule == "C17-R2" {
 				res.add("C07-R8", o.Rule+" "+o.Construct, o.Status, o.Pos, o.Detail)
 			}
 		}
